@@ -99,7 +99,7 @@ func (m *mainSrv) startOnce(withInit, retry bool) bool {
 	logf.Close()
 	m.exited = make(chan error, 1)
 	go func(c *exec.Cmd, ch chan error) { ch <- c.Wait() }(m.cmd, m.exited)
-	for i := 0; i < 600; i++ {
+	for i := 0; i < 2400; i++ { // up to a minute: the machine may be busy
 		if c, err := net.DialTimeout("tcp", fmt.Sprintf("127.0.0.1:%d", m.port+1), 200*time.Millisecond); err == nil {
 			c.Close()
 			time.Sleep(100 * time.Millisecond)
@@ -246,7 +246,7 @@ func TestC19Main(t *testing.T) {
 			}
 			defer c.c.Close()
 			for i := 0; i < 6; i++ {
-				tr, err := c.readTran(10 * time.Second)
+				tr, err := c.readTran(30 * time.Second)
 				if err != nil {
 					rt.Fatalf("a guest that logged in was not shown the agreement: %v", err)
 				}
@@ -309,11 +309,19 @@ func TestC19Main(t *testing.T) {
 			if !m.alive() {
 				rt.Fatalf("after [%s] the server is gone:\n%s", strings.Join(done, "; "), m.log())
 			}
+			// the signal is handled asynchronously: the new text must be served within 20 seconds of it (checked every half
+			// second; each look is a new client)
 			var got []byte
-			if what == "agreement" {
-				got = shown()
-			} else {
-				got = board()
+			for wait := 0; wait < 40; wait++ {
+				if what == "agreement" {
+					got = shown()
+				} else {
+					got = board()
+				}
+				if bytes.Equal(got, text) {
+					break
+				}
+				time.Sleep(500 * time.Millisecond)
 			}
 			if !bytes.Equal(got, text) {
 				rt.Fatalf("after [%s] a client is shown %d bytes that are not the current text of %s (%d bytes; first difference at %d; shown text starts %q)", strings.Join(done, "; "), len(got), file, len(text), firstDiff(got[:min(len(got), len(text))], text[:min(len(got), len(text))]), string(got[:min(len(got), 40)]))
